@@ -378,3 +378,23 @@ Section Loops.
     end.
   Proof. reflexivity. Qed.
 End Loops.
+
+(* what float() can answer in the model *)
+Lemma mk_float_cases neg ds zexp :
+  mk_float neg ds zexp = Err EUnsupported \/ exists n, mk_float neg ds zexp = Ok (FFloat n).
+Proof.
+  unfold mk_float. destruct (Z.leb 0 zexp); [right; eauto|].
+  destruct (pow10 (Z.to_nat (- zexp))); [left; reflexivity|right; eauto|left; reflexivity].
+Qed.
+
+Lemma parse_float_literal_cases s :
+  parse_float_literal s = Err EUnsupported \/ parse_float_literal s = syntax_error \/
+  exists n, parse_float_literal s = Ok (FFloat n).
+Proof.
+  unfold parse_float_literal. destruct (split_number s) as [[[[neg ip] fp] ex]|]; [|left; reflexivity].
+  destruct (sig_digits (ip ++ fp)) as [ds tz]. destruct ds as [|d ds']; [right; right; eauto|].
+  cbv zeta. destruct (Z.leb 310 _); [right; left; reflexivity|].
+  destruct (_ || _); [left; reflexivity|].
+  destruct (mk_float_cases neg (d :: ds') (Z.of_nat tz + ex - Z.of_nat (length fp))) as [->|[n ->]];
+    [left; reflexivity|right; right; eauto].
+Qed.
